@@ -10,7 +10,8 @@ src = f"/tmp/seedwork_md/{pid}-out{rnd}/{m}"
 name = (f"r{rnd}" if rnd else "") + m
 if not os.path.exists(src):
     src = f"/verif/seeded/{pid}/{name}"
-r = subprocess.run(["python3", "/verif/tools/try_mutant.py", src, f"/tmp/seedwork_md/{pid}"] + checks, capture_output=True, text=True)
+wt = f"/tmp/seedwork_md/R3_{pid}" if rnd == "3" and os.path.exists(f"/tmp/seedwork_md/R3_{pid}") else f"/tmp/seedwork_md/{pid}"
+r = subprocess.run(["python3", "/verif/tools/try_mutant.py", src, wt] + checks, capture_output=True, text=True)
 d = json.loads(r.stdout.strip().splitlines()[-1])
 ok = d.get("demo_clean") == 0 and d.get("demo_mutated") == 1 and d.get("baseline_lost") == 0
 dst = f"/verif/seeded/{pid}/{name}"
